@@ -10,11 +10,14 @@ open Ark
 
 /-! C15 — Shrink is invisible and convergent (table and index level). -/
 
-/-- `table.Shrink` decides exactly as the Go code does (regenerated condition) -/
+/-- `table.Shrink` as translated from the source on every run has the result flag and the capacity of the model's `shrink`, for all tables -/
 theorem shrink_decides_as_in_source : type_of% @GenBridge.tableShrink_eq := @GenBridge.tableShrink_eq
 
-/-- `table.CanShrink` decides exactly as the Go code does -/
+/-- `table.CanShrink` as translated from the source decides exactly as the model's -/
 theorem canShrink_decides_as_in_source : type_of% @GenBridge.tableCanShrink_eq := @GenBridge.tableCanShrink_eq
+
+/-- in the source, `CanShrink` is true exactly when `Shrink` would do something (the bounded `Shrink(0)` loop relies on it) -/
+theorem canShrink_iff_shrinks_in_source : type_of% @GenBridge.tableCanShrink_iff_shrinks := @GenBridge.tableCanShrink_iff_shrinks
 
 /-- shrinking a table changes no row in use (entities, values) -/
 theorem shrink_rows_unchanged : type_of% @Table.shrink_preserves_rows := @Table.shrink_preserves_rows
@@ -41,12 +44,20 @@ theorem shrink_locked : type_of% @World.opShrink_locked := @World.opShrink_locke
 theorem shrink_idempotent (t : Table) (m : Nat) : ((t.shrink m).1.shrink m).2 = false := by
   have hc := Table.shrink_cap t m
   have hl := Table.shrink_len t m
-  rw [GenBridge.tableShrink_eq (t.shrink m).1 m]
-  have : Generated.tableShrink_noop (t.shrink m).1.cap (max (capPow2 (t.shrink m).1.len) m) := by
-    unfold Generated.tableShrink_noop
+  have hle : (t.shrink m).1.cap ≤ max (capPow2 (t.shrink m).1.len) m := by
     rw [hc, hl]
     split <;> omega
-  simp [this]
+  generalize (t.shrink m).1 = t' at hle
+  unfold Table.shrink
+  simp [hle]
+
+/-- … and so does the source: `Shrink` applied to the result of `Shrink` (as translated) reports no work -/
+theorem shrink_idempotent_in_source (t : Table) (g : Ark.Generated.Book.G_table) (h : GenBridge.capsOf t g) (m : Nat) :
+    (Ark.Generated.Book.table_Shrink (Ark.Generated.Book.table_Shrink g m).1 m).2 = false := by
+  have h1 := GenBridge.tableShrink_eq t g h m
+  have h2 := GenBridge.tableShrink_eq (t.shrink m).1 (Ark.Generated.Book.table_Shrink g m).1 h1.1 m
+  rw [h2.2]
+  exact shrink_idempotent t m
 
 
 /-! ## world level (Props/C15World): Shrink is invisible, keeps the structure, is exact about remaining
